@@ -114,6 +114,11 @@ pub fn gen(seed: u64, b: i64, nops: usize) -> Value {
             };
             let (topic, ttl) = if xc {
                 ("xs.context".to_string(), json!({"k": "forever", "n": 0}))
+            } else if rng.gen_range(0..100) < 6 {
+                // must be rejected whole
+                ops.push(json!({"op": "import", "id": id, "ctx": c, "topic": format!("tNUL{}", rng.gen_range(0..3)),
+                    "ttl": {"k": "forever", "n": 0}}));
+                continue;
             } else {
                 let mut ttl = pick_ttl(&mut rng);
                 if ttl["k"] == "eph" {
